@@ -118,6 +118,22 @@ def roundtrip (file : Bytes) (abc B : Nat) : String :=
         s!"ok nrec={recs.size} same={if same then 1 else 0} h={fnvBytes out}"
   | _ => "skip"
 
+/-- the composite op `srcscan`: read the file to its end with one kind of call (gzip pipe and standard input deliver the same
+    bytes through the same block loader; only repositioning is unavailable) -/
+def scanAllLoop (call : String) (C W : Int) : Nat → Ascii → Sq → List String → List String
+  | 0, _, _, acc => acc.reverse
+  | fuel + 1, a, sq, acc =>
+    let a := { a with haveErr := false, exc := false }
+    let (a, sq, st) :=
+      if call == "read" then read a sq.reuse
+      else if call == "readinfo" then readInfo a sq.reuse
+      else if call == "readseq" then readSequence a sq.reuse
+      else readWindow a sq C W
+    let acc := fmtRes a sq st :: acc
+    if st == .eof then acc.reverse
+    else if !(st == .ok || st == .eod) then acc.reverse
+    else scanAllLoop call C W fuel a (if st == .eod then sq.reuse else sq) acc
+
 def withA (s : DS) (f : Ascii → DS × String) : DS × String :=
   if s.unmodelled then (s, "unmodelled") else
   if s.dead then (s, "dead") else
@@ -229,6 +245,25 @@ def step (s : DS) (line : String) : DS × String :=
         -- ENOTFOUND / ERANGE before any repositioning leave the handle usable
         if st == .enotfound || st == .erange then ({ s with a := some a }, fmtRes a sq st) else finish s a sq st
     | _, _, _, _ => (s, if s.unmodelled then "unmodelled" else "bad-op")
+  | "echo" :: _ => withA s fun a =>
+      let (a, st, out) := echo a s.sq
+      if st == .ok then ({ s with a := some a }, s!"ok hex={hexB out}")
+      else ({ s with a := some a, dead := true }, if st == .fault then "fault" else st.name ++ (if a.exc then " exc" else ""))
+  | "toolfetch" :: _ =>
+    -- `onefetch` of esl-sfetch with an index: PositionByKey, Read, Echo
+    match argHex? ws "key", s.ssi with
+    | some k, some ssi => withA s fun a =>
+        match ssi.findName k.toArray with
+        | none => ({ s with a := some a, dead := true }, "tool-fatal")
+        | some e =>
+          let (a, st) := position a e.roff.toNat
+          if st != .ok then ({ s with a := some a, dead := true }, "tool-fatal") else
+          let (a, sq, st) := read a (freshSq 0)
+          if st != .ok then ({ s with a := some a, dead := true }, "tool-fatal") else
+          let (a, st, out) := echo a sq
+          if st != .ok then ({ s with a := some a, dead := true }, "tool-fatal") else
+          ({ s with a := some a }, s!"ok hex={hexB out}")
+    | _, _ => (s, if s.unmodelled then "unmodelled" else "bad-op")
   | "toolsub" :: _ =>
     -- `onefetch_subseq` of esl-sfetch: coordinates with start > end request the reverse complement
     match argHex? ws "key", argInt? ws "s", argInt? ws "e", s.ssi with
@@ -267,6 +302,19 @@ def step (s : DS) (line : String) : DS × String :=
         else if st == .fault then ({ s with a := some a, blk := some blk, dead := true }, "fault")
         else ({ s with a := some a, blk := some blk, dead := true },
               st.name ++ (if st == .eformat then (if a.haveErr then " msg" else " nomsg") else "") ++ exc)
+    | _, _, _, _, _, _ => (s, "bad-op")
+  | "srcscan" :: _ =>
+    match (arg? ws "fmt").bind fmtCode, (arg? ws "abc").bind abcCode, argNat? ws "B", arg? ws "call", argInt? ws "C", argInt? ws "W" with
+    | some fmt, some abc, some B, some call, some C, some W =>
+      -- format autodetection on a pipe works on the name without `.gz`; on standard input the name is `-` (no suffix)
+      let ext := if arg? ws "src" == some "stdin" then "-" else s.ext
+      match openModel s.file ext fmt abc (if B == 0 then 1 else B) with
+      | none => ({ s with a := none }, "unmodelled")
+      | some (a, st) =>
+        let tag := if arg? ws "src" == some "stdin" then "scan-stdin " else "scan-gzip "
+        if st != .ok then ({ s with a := none }, tag ++ s!"open-{st.name}") else
+        let fuel := 4 * s.file.size + 16
+        ({ s with a := none }, tag ++ " ;; ".intercalate (scanAllLoop call C W fuel a (freshSq abc) []))
     | _, _, _, _, _, _ => (s, "bad-op")
   | "afetch" :: _ => ({ s with a := none, ssi := none }, "unmodelled")    -- alignment databases: harness + monitor only
   | "guessabc" :: _ => ({ s with unmodelled := true }, "unmodelled")
